@@ -132,6 +132,32 @@ def run(run):
         script['status'] = status
         script['body'] = b'' if status == 204 else body_for(shape, n)
         before = snapshot(tok)
+        reply = {'access_token': 'acc-%d' % n, 'client_token': 'cli-%d' % n,
+                 'profile_id': 'id%032d' % n, 'profile_name': 'name%d' % n}
+        if shape == 'valid' and status == 200:
+            # a success reply may repeat part of what is already stored: the
+            # same profile under a new name (the player renamed the account),
+            # another profile of the same name, unchanged tokens
+            variant = ('all-new', 'same-profile-id-new-name',
+                       'same-name-new-profile-id', 'same-tokens')[n % 4]
+            if variant == 'same-profile-id-new-name' and before['profile_id']:
+                reply['profile_id'] = before['profile_id']
+            elif variant == 'same-name-new-profile-id' and \
+                    before['profile_name']:
+                reply['profile_name'] = before['profile_name']
+            elif variant == 'same-tokens' and before['access_token'] and \
+                    before['client_token']:
+                reply['access_token'] = before['access_token']
+                reply['client_token'] = before['client_token']
+            else:
+                variant = 'all-new'
+            run.seen('success_reply_variants', variant)
+            script['body'] = json.dumps({
+                'accessToken': reply['access_token'],
+                'clientToken': reply['client_token'],
+                'selectedProfile': {'id': reply['profile_id'],
+                                    'name': reply['profile_name']},
+                'availableProfiles': []}).encode()
         n_req = len(stub.requests)
         was_auth = all(before[f] for f in FIELDS)
         w = dict(w, op=op, status=status, body=shape, before=before)
@@ -259,11 +285,8 @@ def run(run):
                 bad('%s/success' % op, 'operation must return True on success')
                 return
             if op in ('authenticate', 'authenticate-invalidate', 'refresh'):
-                want = {'access_token': 'acc-%d' % n, 'client_token':
-                        'cli-%d' % n, 'profile_id': 'id%032d' % n,
-                        'profile_name': 'name%d' % n,
-                        'username': 'user%d' % n if op != 'refresh'
-                        else before['username']}
+                want = dict(reply, username='user%d' % n if op != 'refresh'
+                            else before['username'])
                 if after != want:
                     bad('%s/stored' % op, 'stored credentials are not exactly '
                         'the returned ones', expected=want)
@@ -370,4 +393,5 @@ def run(run):
     run.require('operations', 300)
     run.require('error_replies', 100)
     run.require('successes', 30)
+    run.require('success_reply_variants', 4)
     run.require('refused_locally', 10)
